@@ -30,6 +30,8 @@ def cluster_evidence(pid, tier, seed, res, model, new, known, wall):
                         if states else
                         "no model config for this property yet: states = states of real executions evaluated by TLC (Observe mode)"),
         "exhaustive": bool(model.get("exhaustive", False)),
+        "exhaustive_scope": "the TLC model configs listed under model_runs (bounded 2-voter instances of Raft.tla) were explored completely; the recorded real executions are a finite, seed-dependent sample",
+        "spec_defects": model.get("spec_defects", []),
         "corpus_schedules": len(res.get("corpus", [])),
         "determinism_diffs": res.get("det_diffs", 0),
         "cached_cluster_run": bool(res.get("cached")),
